@@ -7,7 +7,7 @@ from __future__ import annotations
 
 import ast
 import itertools
-from typing import Dict, List, Optional, Tuple
+from typing import Dict, List, Optional, Set, Tuple
 
 from .core import U
 
@@ -182,6 +182,8 @@ class _Run:
         self.choices = choices
         self.pos = 0
         self.decisions: List[Tuple[str, bool]] = []
+        self.aligned: Set[int] = set()  # tensors (by identity) a `data_ptr() % N == 0` test has shown to be aligned on this path
+        self.keep: list = []
 
     def trace(self):
         return list(self.decisions)
@@ -420,6 +422,22 @@ class _Run:
         raise Unknown(U(x))
 
     def compare(self, x, env):
+        # `t.data_ptr() % N == 0` / `!= 0`: the alignment test of a storage, decided by the hazard the operand carries
+        l_ = x.left
+        if (isinstance(l_, ast.BinOp) and isinstance(l_.op, ast.Mod) and isinstance(l_.left, ast.Call) and isinstance(l_.left.func, ast.Attribute) and l_.left.func.attr == "data_ptr"
+                and isinstance(l_.right, ast.Constant) and isinstance(l_.right.value, int) and l_.right.value >= 16 and l_.right.value % 16 == 0
+                and isinstance(x.comparators[0], ast.Constant) and x.comparators[0].value == 0 and isinstance(x.ops[0], (ast.Eq, ast.NotEq))):
+            t_ = self.ev(l_.left.func.value, env)
+            if isinstance(t_, T):
+                if "unaligned" not in (getattr(t_, "strides", None) or ()) or id(t_) in self.aligned:
+                    mis = False
+                else:
+                    # the operand MAY be misaligned: both outcomes are instances, and on the aligned one the test has established the fact for this path
+                    mis = self.choose(U(l_) + " != 0")
+                    if not mis:
+                        self.aligned.add(id(t_))
+                        self.keep.append(t_)
+                return mis if isinstance(x.ops[0], ast.NotEq) else not mis
         a = self.ev(x.left, env)
         b = self.ev(x.comparators[0], env)
         op = x.ops[0]
@@ -615,7 +633,11 @@ class _Run:
                 raise TypeErr(f"_weight_int8pack_mm needs 2-D activations, got {a}")
             if a.labels[-1] != w.labels[-1]:
                 raise TypeErr(f"_weight_int8pack_mm contracts {a} with {w}")
-            if getattr(w, "strides", ()):
+            for z_, nm_ in ((a, "activations"), (w, "weights")):
+                if "unaligned" in getattr(z_, "strides", ()) and id(z_) not in self.aligned:
+                    raise TypeErr(f"_weight_int8pack_mm is given {nm_} whose storage may not be 16-byte aligned (a tensor mapped from a safetensors file, a view taken in the middle of a buffer) and nothing on the way realigns it - "
+                                  "contiguous() returns a dense tensor as it is: the kernel uses aligned vector loads and the interpreter dies with SIGSEGV (platform table, probed at offsets 2, 4, 8)")
+            if set(getattr(w, "strides", ())) - {"unaligned"}:
                 raise TypeErr("_weight_int8pack_mm is given weights that may not be contiguous (quantize_weight keeps the layout of a transposed argument) without contiguous(): the kernel refuses them with a RuntimeError (platform table)")
             if "lastdim" in getattr(a, "strides", ()):
                 raise TypeErr("_weight_int8pack_mm is given activations that may not be contiguous on their last dimension (a transposed 2-D input) without contiguous(): the kernel refuses them with a RuntimeError (platform table)")
@@ -633,9 +655,16 @@ class _Run:
 
     def method(self, recv, name, args, kw, node):
         r = self._method(recv, name, args, kw, node)
+        # a storage that may be misaligned stays so through everything that can return its receiver (views, contiguous() / to() of a tensor that already
+        # has the layout / dtype asked for, detach): only a copy into a new allocation (clone) realigns it
+        if isinstance(recv, T) and isinstance(r, T) and r is not recv and "unaligned" in (getattr(recv, "strides", None) or ()) and id(recv) not in self.aligned and name != "clone" and r.kind == recv.kind:
+            r.strides = set(getattr(r, "strides", None) or ()) | {"unaligned"}
+        # clone() keeps the strides of a dense tensor (a transposed operand stays transposed); it materialises an expanded one
+        if isinstance(recv, T) and isinstance(r, T) and r is not recv and name == "clone" and "lastdim" in (getattr(recv, "strides", None) or ()) and "memory_format" not in kw:
+            r.strides = set(getattr(r, "strides", None) or ()) | {"lastdim"}
         # stride hazards (a tensor that may have a zero stride / may not be contiguous on its last dimension) survive views only
         if isinstance(recv, T) and isinstance(r, T) and r is not recv and getattr(recv, "strides", None) and name in ("t", "view", "reshape", "detach", "unsqueeze", "flatten", "expand", "expand_as", "broadcast_to", "squeeze", "transpose", "permute"):
-            r.strides = set(recv.strides) | set(getattr(r, "strides", ()))
+            r.strides = (set(recv.strides) - ({"unaligned"} if id(recv) in self.aligned else set())) | set(getattr(r, "strides", ()))
         return r
 
     def _method(self, recv, name, args, kw, node):
